@@ -338,6 +338,15 @@ func (t *TableEngine) bindConst(n ast.Node, st *tstate) {
 				key := t.p.varKey(o)
 				st.env.bools[key] = cv == "true"
 				st.env.atoms[key] = &TAtom{Kind: "bool", Key: key, X: id, deps: &Mentions{Vars: map[types.Object]bool{}, Fields: map[*types.Var]bool{}}}
+			} else if rid, isID := unparen(r).(*ast.Ident); isID {
+				// a copy of a boolean local whose value is known on this path (also inside a parallel assignment)
+				if ro, isVar := t.p.ObjOf(rid).(*types.Var); isVar && !ro.IsField() {
+					if v, known := st.env.bools[t.p.varKey(ro)]; known {
+						key := t.p.varKey(o)
+						st.env.bools[key] = v
+						st.env.atoms[key] = &TAtom{Kind: "bool", Key: key, X: id, deps: &Mentions{Vars: map[types.Object]bool{}, Fields: map[*types.Var]bool{}}}
+					}
+				}
 			}
 		}
 	}
